@@ -215,6 +215,25 @@ def _impl(sc):
                     out['dump'] = 'reload lists other lexicons'
             except Exception as e:
                 out['dump'] = f'{stage if "stage" in dir() else "dump"}: {type(e).__name__}: {str(e)[:100]}'
+            # … in every version dump() can be asked for: the headers of the plain lexicons with a dependency,
+            # written as WN-LMF 1.0 (which has no <Requires>) and as 1.1
+            if out.get('dump') == 'ok':
+                for tv in ('1.0', '1.1'):
+                    try:
+                        hdrs = []
+                        for x in r['lexicons']:
+                            if x.get('extends'):
+                                continue
+                            h = {k_: v_ for k_, v_ in x.items() if k_ not in ('entries', 'synsets', 'frames', 'extends')}
+                            h['requires'] = [{'id': 'dep', 'version': '1', 'url': None}]
+                            hdrs.append(h)
+                        if not hdrs:
+                            break
+                        g2 = d / f'dumped-{tv}.xml'
+                        lmf.dump({'lmf_version': tv, 'lexicons': hdrs}, g2)
+                        lmf.load(g2, progress_handler=None)
+                    except Exception as e:
+                        out['dump'] = f'dump as {tv} of lexicons with a dependency: {type(e).__name__}: {str(e)[:100]}'
         out['is_lmf'] = lmf.is_lmf(f)
         try:
             infos = lmf.scan_lexicons(f)
